@@ -1,0 +1,84 @@
+//go:build verif
+
+package verifhook
+
+import (
+	"fmt"
+
+	"github.com/verily-src/fhirpath-go/internal/narrow"
+)
+
+// NarrowTypes lists the integer types narrow.ToInteger is instantiated with below.
+var NarrowTypes = []string{"int", "int8", "int16", "int32", "int64", "uint", "uint8", "uint16", "uint32", "uint64", "uintptr"}
+
+// Narrow converts the 64-bit pattern bits, read as a value of type from, to
+// type to with narrow.ToInteger, and returns the result (in decimal) and the
+// ok flag.
+func Narrow(from, to string, bits uint64) (string, bool, error) {
+	switch from {
+	case "int":
+		return narrowFrom(int(bits), to)
+	case "int8":
+		return narrowFrom(int8(bits), to)
+	case "int16":
+		return narrowFrom(int16(bits), to)
+	case "int32":
+		return narrowFrom(int32(bits), to)
+	case "int64":
+		return narrowFrom(int64(bits), to)
+	case "uint":
+		return narrowFrom(uint(bits), to)
+	case "uint8":
+		return narrowFrom(uint8(bits), to)
+	case "uint16":
+		return narrowFrom(uint16(bits), to)
+	case "uint32":
+		return narrowFrom(uint32(bits), to)
+	case "uint64":
+		return narrowFrom(uint64(bits), to)
+	case "uintptr":
+		return narrowFrom(uintptr(bits), to)
+	}
+	return "", false, fmt.Errorf("verifhook: unknown integer type %q", from)
+}
+
+func narrowFrom[From interface {
+	~int | ~int8 | ~int16 | ~int32 | ~int64 | ~uint | ~uint8 | ~uint16 | ~uint32 | ~uint64 | ~uintptr
+}](v From, to string) (string, bool, error) {
+	switch to {
+	case "int":
+		r, ok := narrow.ToInteger[int](v)
+		return fmt.Sprint(r), ok, nil
+	case "int8":
+		r, ok := narrow.ToInteger[int8](v)
+		return fmt.Sprint(r), ok, nil
+	case "int16":
+		r, ok := narrow.ToInteger[int16](v)
+		return fmt.Sprint(r), ok, nil
+	case "int32":
+		r, ok := narrow.ToInteger[int32](v)
+		return fmt.Sprint(r), ok, nil
+	case "int64":
+		r, ok := narrow.ToInteger[int64](v)
+		return fmt.Sprint(r), ok, nil
+	case "uint":
+		r, ok := narrow.ToInteger[uint](v)
+		return fmt.Sprint(r), ok, nil
+	case "uint8":
+		r, ok := narrow.ToInteger[uint8](v)
+		return fmt.Sprint(r), ok, nil
+	case "uint16":
+		r, ok := narrow.ToInteger[uint16](v)
+		return fmt.Sprint(r), ok, nil
+	case "uint32":
+		r, ok := narrow.ToInteger[uint32](v)
+		return fmt.Sprint(r), ok, nil
+	case "uint64":
+		r, ok := narrow.ToInteger[uint64](v)
+		return fmt.Sprint(r), ok, nil
+	case "uintptr":
+		r, ok := narrow.ToInteger[uintptr](v)
+		return fmt.Sprint(r), ok, nil
+	}
+	return "", false, fmt.Errorf("verifhook: unknown integer type %q", to)
+}
